@@ -282,11 +282,36 @@ fn $name() {
 }
 c17_cow!(c17_cow, 3);
 
-//@ props=C17 tier=witness timeout=2400 mem=24 model=0 stub_fmt=0 name=c17_cow_2
+//@ props=C17 tier=witness timeout=2400 mem=30 model=0 stub_fmt=0 name=c17_cow_2
 //@ functions=Unquote::to_cow
-//@ bounds=ASCII strings of 0..2 bytes; only used to extract concrete counterexamples
+//@ bounds=quoted ASCII strings of exactly 3 bytes: '"' followed by two symbolic bytes; only used to extract concrete counterexamples (trace generation on the full harness does not fit)
 //@ what=as c17_cow
-c17_cow!(c17_cow_2, 2);
+#[kani::proof]
+#[kani::unwind(6)]
+fn c17_cow_2() {
+    let x: u8 = kani::any();
+    let y: u8 = kani::any();
+    kani::assume(x < 0x80 && y < 0x80);
+    let b = [b'"', x, y];
+    let s = unsafe { core::str::from_utf8_unchecked(&b) };
+    let u = Unquote::new(s);
+    let cow = u.to_cow();
+    let mut it = u.clone();
+    let mut out = [0u8; 3];
+    let mut n = 0;
+    while let Some(c) = it.next() {
+        out[n] = c as u8;
+        n += 1;
+    }
+    let cb = cow.as_bytes();
+    assert!(cb.len() == n, "C17: to_cow() and character iteration give the same length");
+    if n > 0 && cb.len() > 0 {
+        assert!(cb[0] == out[0], "C17: to_cow() equals character iteration (first character)");
+    }
+    if n > 1 && cb.len() > 1 {
+        assert!(cb[1] == out[1], "C17: to_cow() equals character iteration (second character)");
+    }
+}
 
 //@ props=C17 tier=quick timeout=1800 mem=4 model=0 stub_fmt=0
 //@ functions=Unquote::next
